@@ -99,6 +99,64 @@ fn observe_stale8(mode: &str, tokens: &[&str]) -> String {
     match r { Ok(s) => s, Err(_) => "err".into() }
 }
 
+/// A `Signing` implementation that does NOT read its input to the end (a detached / pre-computed signature): it reads what `mode`
+/// says (`none`, `k<N>` bytes, `half`, `bytewise` = everything in 1-byte reads) and returns the real Ed25519 signature over the
+/// header bytes it was given beforehand. The digests the library records must not depend on how much a signer chose to read.
+#[derive(Debug)]
+struct LazySigner { inner: rpm::signature::pgp::Signer, mode: String, expected: Vec<u8> }
+impl rpm::signature::Signing for LazySigner {
+    type Signature = Vec<u8>;
+    fn sign(&self, mut data: impl std::io::Read, t: rpm::Timestamp) -> Result<Vec<u8>, rpm::Error> {
+        let want = match self.mode.as_str() {
+            "none" => 0usize,
+            "half" => self.expected.len() / 2,
+            "bytewise" => usize::MAX,
+            k => k.trim_start_matches('k').parse().unwrap_or(0),
+        };
+        let mut one = [0u8; 1];
+        let mut got = 0usize;
+        while got < want {
+            match data.read(&mut one) { Ok(0) => break, Ok(_) => got += 1, Err(_) => break }
+        }
+        self.inner.sign(&self.expected[..], t)
+    }
+    fn algorithm(&self) -> rpm::signature::AlgorithmType { self.inner.algorithm() }
+}
+
+/// `lazy8 <mode> <how> <cfg…>`: the header bytes are learnt from an unsigned build of the same (reproducible) configuration; then
+/// `how` = `bas` → `build_and_sign(lazy signer)`, `resign` → build, write, parse, `sign_with_timestamp(lazy signer)`.
+fn observe_lazy8(mode: &str, how: &str, tokens: &[&str]) -> String {
+    let r = (|| -> Result<String, rpm::Error> {
+        let plain = builder_from(tokens)?.build()?;
+        let mut pb = Vec::new();
+        plain.write(&mut pb)?;
+        let o = plain.metadata.get_package_segment_offsets();
+        let expected = pb[o.header as usize..o.payload as usize].to_vec();
+        let key = std::fs::read("/repo/tests/assets/signing_keys/secret_ed25519.asc")?;
+        let inner = rpm::signature::pgp::Signer::load_from_asc_bytes(&key)?;
+        let lazy = LazySigner { inner, mode: mode.to_string(), expected };
+        let pkg = match how {
+            "bas" => builder_from(tokens)?.build_and_sign(lazy)?,
+            _ => {
+                let mut p = rpm::Package::parse(&mut &pb[..])?;
+                p.sign_with_timestamp(lazy, 1_600_000_000u32)?;
+                p
+            }
+        };
+        let mut out = Vec::new();
+        pkg.write(&mut out)?;
+        let p3 = rpm::Package::parse(&mut &out[..])?;
+        let o = p3.metadata.get_package_segment_offsets();
+        let hsha = p3.metadata.signature.get_entry_data_as_string(rpm::IndexSignatureTag::RPMSIGTAG_SHA256).map(|s| s.to_string()).unwrap_or("absent".into());
+        let pubkey = std::fs::read("/repo/tests/assets/signing_keys/public_ed25519.asc")?;
+        let verifier = rpm::signature::pgp::Verifier::load_from_asc_bytes(&pubkey)?;
+        Ok(format!("ok hsha={} hreal={} digests={} verify={}", hsha, sha256_hex(&out[o.header as usize..o.payload as usize]),
+            p3.verify_digests().is_ok(), p3.verify_signature(&verifier).is_ok()))
+    })();
+    cleanup();
+    match r { Ok(s) => s, Err(_) => "err".into() }
+}
+
 /// inner sink driven by a finite script; afterwards it accepts everything
 struct Scripted { script: Vec<String>, pos: usize, got: Vec<u8> }
 impl Write for Scripted {
@@ -142,6 +200,7 @@ pub fn eval(op: &str, a: &[&str]) -> Option<String> {
     match op {
         "build8" => Some(observe_build8(a)),
         "stale8" => Some(observe_stale8(a[0], &a[1..])),
+        "lazy8" => Some(observe_lazy8(a[0], a[1], &a[2..])),
         "shaw" => Some(observe_shaw(a[0], &unhx(a[2]), a[1].parse().ok()?)),
         _ => None,
     }
@@ -194,6 +253,31 @@ pub fn gen(ctx: &mut Ctx) {
     if si == 0 && !ctx.thorough {
         // one 3 MB incompressible case in the quick tier too (all compressors accept partial writes there)
         ctx.req(&format!("build8 n=70 v=31 l=4d4954 a=78 s=73 now=1700000000 sd=1600000000 c=gzip:6 f={}:33188:726f6f74:726f6f74:0:~:-:1500000000:3:3000000:~", hx(b"/opt/a")));
+    }
+    if si == 0 {
+        // the SAME destination handed to with_file twice with different content (seed C08-7): whichever entry the builder keeps,
+        // the digest it records must be the digest of the bytes it archives
+        for (s1, z1, s2, z2) in [(21u64, 13usize, 22u64, 13usize), (23, 5, 24, 4096), (25, 4096, 26, 0), (27, 0, 28, 7)] {
+            for c in ["none", "zstd:3"] {
+                ctx.req(&format!(
+                    "build8 n=70 v=31 l=4d4954 a=78 s=73 now=1700000000 sd=1600000000 c={} f={}:33188:726f6f74:726f6f74:0:~:-:1500000000:{}:{}:~ f={}:33188:726f6f74:726f6f74:0:~:-:1500000000:{}:{}:~ f={}:33188:726f6f74:726f6f74:0:~:-:1500000000:9:3:~",
+                    c, hx(b"/opt/twice"), s1, z1, hx(b"/opt/twice"), s2, z2, hx(b"/opt/z")
+                ));
+            }
+        }
+    }
+    // signers that do not read their input to the end (seed C08-8): what is recorded must be the digest of the header all the same
+    {
+        let mut j = 0u64;
+        for mode in ["none", "k1", "k16", "half", "bytewise"] {
+            for how in ["bas", "resign"] {
+                j += 1;
+                if j % sn != si { continue; }
+                let cfg = crate::c06::gen_cfg(&mut ctx.rng, &[0usize, 13, 4096]);
+                let toks: Vec<&str> = cfg.split(' ').filter(|t| !t.starts_with("sd=") && !t.starts_with("now=")).collect();
+                ctx.req(&format!("lazy8 {} {} {} sd=1600000000 now=1700000000", mode, how, toks.join(" ")));
+            }
+        }
     }
     // re-signing / clearing a package whose recorded header digest is stale
     for (i, mode) in ["sign", "clear", "sign", "clear"].iter().enumerate() {
